@@ -43,8 +43,9 @@ StopModes == {"cancel", "provfail"}
 \* the abstract sample of a logged report
 Abs(s) == [sec |-> s.sec, ms |-> s.ms, tag |-> s.tag, tagp |-> (IF "tagp" \in DOMAIN s THEN s.tagp ELSE <<>>), id |-> s.id, f |-> s.f]
 \* kinds without a result file: "log" writes every sample through to the logger (the entry is the line),
-\* "discard" throws every sample away
-NoFile == {"log", "discard"}
+\* "discard" throws every sample away, "test" (aggregator.NewTest) keeps every sample in memory (read when Run
+\* has returned: "StdDrained")
+NoFile == {"log", "discard", "test"}
 LogEntry(s) == "Sample reported: S" \o ToString(s.g) \o "-" \o ToString(s.i)
 Expect(s) == IF kind = "phout" THEN PhoutLine(Abs(s), ids) ELSE IF kind = "log" THEN LogEntry(s) ELSE s
 
@@ -141,7 +142,7 @@ RunEnd == /\ Ev.ev = "RunEnd"
                               ELSE IF kind = "discard" THEN {}
                               ELSE Flag(CompleteCounts(nwritten, Ev.dropped, nrep), "LinesPlusDropsIsNotReports")
                                    \cup Flag(nrep - nmatched = Ev.dropped, "UnwrittenIsNotDropped"))
-                        \cup Flag(kind \in {"phout", "log"} => Ev.dropped = 0, "BlockingAggregatorDropped")
+                        \cup Flag(kind \in {"phout", "log", "test"} => Ev.dropped = 0, "BlockingAggregatorDropped")
                         \* the only errors: the drop error, and the sink's own error when (and only when) it failed
                         \cup Flag(Ev.err = "" \/ faulted, "UnexpectedRunError")
           /\ UNCHANGED <<kind, ids, mode, before, pending, nrep, nmatched, nwritten, cancelled, closed, fault, faulted>>
